@@ -317,19 +317,19 @@ package modbus
 
 //@ func (f *Field) registerSize() (res uint16)
 //@   requires f != nil
-//@   safety[C06,C10]
+//@   safety[C06]
 //@   modifies[C06,C13] nothing
 //@   ensures[C05,C06] int(res) == fieldRegs(f)
 
 //@ func (f *Field) Validate() (err error)
 //@   requires f != nil
-//@   safety[C06,C10]
+//@   safety[C06]
 //@   modifies[C06,C13] nothing
 //@   ensures[C06] fieldOK(f) <==> err == nil
 
 //@ func (f *Field) ExtractFrom(registers *packet.Registers) (v interface{}, err error)
 //@   requires f != nil && registers != nil && validRegs(registers)
-//@   safety[C05,C10]
+//@   safety[C05]
 //@   modifies[C05,C13] nothing
 //@   ensures[C05] exWin(registers, f) <==> err == nil
 //@   ensures[C05] err == nil ==> exVal1(registers, f, v)
@@ -360,7 +360,7 @@ package modbus
 
 //@ func (r BuilderRequest) AsRegisters(response RegistersResponse) (res *packet.Registers, err error)
 //@   requires response != nil
-//@   safety[C05,C10]
+//@   safety[C05]
 //@   modifies[C05,C13] nothing
 //@   modifies asRegsStart, asRegsRes
 //@   ensures[C05] asRegsStart == r.StartAddress && res == asRegsRes
@@ -368,7 +368,7 @@ package modbus
 
 //@ func (r BuilderRequest) extractRegisterFields(response RegistersResponse, continueOnExtractionErrors bool) (res []FieldValue, err error)
 //@   requires response != nil
-//@   safety[C05,C10]
+//@   safety[C05]
 //@   modifies[C05,C13] nothing
 //@   modifies asRegsStart, asRegsRes
 //@   alias asRegsRes.data := response.(*packet.ReadHoldingRegistersResponseTCP).Data if asRegsRes != nil && dyntype(response) == *packet.ReadHoldingRegistersResponseTCP
@@ -403,7 +403,7 @@ package modbus
 
 //@ func (r BuilderRequest) extractCoilFields(response CoilsResponse, continueOnExtractionErrors bool) (res []FieldValue, err error)
 //@   requires response != nil
-//@   safety[C05,C10]
+//@   safety[C05]
 //@   modifies[C05,C13] nothing
 //@   ensures[C05] continueOnExtractionErrors || !anyCoilFail(r.StartAddress, r.Fields, len(r.Fields)) ==> len(res) == len(r.Fields)
 //@   ensures[C05] len(res) == len(r.Fields) ==> forall k in 0..len(res) :: res[k].Field == r.Fields[k] && dyntype(res[k].Value) == bool && res[k].Value.(bool) == coilVal(r.StartAddress, r.Fields[k].Address) && (res[k].Error == nil <==> coilOk(r.StartAddress, r.Fields[k].Address))
@@ -418,7 +418,7 @@ package modbus
 //@     invariant !continueOnExtractionErrors ==> !hadErrors
 
 //@ func (r BuilderRequest) ExtractFields(response packet.Response, continueOnExtractionErrors bool) (res []FieldValue, err error)
-//@   safety[C05,C10]
+//@   safety[C05]
 //@   modifies[C05,C13] nothing
 //@   modifies asRegsStart, asRegsRes
 //@   alias asRegsRes.data := response.(*packet.ReadHoldingRegistersResponseTCP).Data if asRegsRes != nil && dyntype(response) == *packet.ReadHoldingRegistersResponseTCP
@@ -440,7 +440,7 @@ package modbus
 
 //@ func (bs *builderSlots) IndexOf(address uint16) (res int)
 //@   requires bs != nil
-//@   safety[C06,C10]
+//@   safety[C06]
 //@   modifies[C06] nothing
 //@   ensures[C06] res == -1 ==> forall k in 0..len(deref(bs)) :: deref(bs)[k].address != address
 //@   ensures[C06] res != -1 ==> 0 <= res && res < len(deref(bs)) && deref(bs)[res].address == address
@@ -451,7 +451,7 @@ package modbus
 
 //@ func (g *builderSlotGroup) AddField(f Field)
 //@   requires g != nil && groupInv(g) && fieldOfGroup(g, f) && fieldOK(f)
-//@   safety[C05,C06,C10]
+//@   safety[C05,C06]
 //@   modifies hdr(g.slots), g.slots
 //@   ensures[C05,C06] groupInv(g)
 //@   ensures[C05,C06] g.serverAddress == old(g.serverAddress) && g.unitID == old(g.unitID) && g.isForCoils == old(g.isForCoils)
@@ -475,7 +475,7 @@ package modbus
 //@ func batchToRequests(connectionGroup []builderSlotGroup) (res []requestBatch)
 //@   requires forall j in 0..len(connectionGroup) :: groupOK(connectionGroup[j])
 //@   requires forall j in 0..len(connectionGroup) :: connectionGroup[j].isForCoils == connectionGroup[0].isForCoils
-//@   safety[C05,C06,C10]
+//@   safety[C05,C06]
 //@   modifies backing(connectionGroup[0].slots), sortCalls
 //@   ensures[C05,C06] forall j in 0..len(res) :: batchOK(res[j])
 //@   ensures[C05,C06] len(res) >= len(connectionGroup)
@@ -525,7 +525,7 @@ package modbus
 
 //@ func split(fields []Field, funcType splitToFuncType) (res []BuilderRequest, err error)
 //@   requires funcType <= 7
-//@   safety[C05,C06,C10]
+//@   safety[C05,C06]
 //@   modifies sortCalls
 //@   ensures[C05,C06] !(forall i in 0..len(fields) :: fieldOK(fields[i])) ==> err != nil
 //@   ensures[C05,C06] err != nil ==> len(res) == 0
@@ -541,7 +541,7 @@ package modbus
 // the eight public entry points of the request builder
 //@ func (b *Builder) ReadCoilsTCP() (res []BuilderRequest, err error)
 //@   requires b != nil
-//@   safety[C06,C10]
+//@   safety[C06]
 //@   modifies sortCalls
 //@   ensures[C06] !(forall i in 0..len(b.fields) :: fieldOK(b.fields[i])) ==> err != nil
 //@   ensures[C06] err != nil ==> len(res) == 0
@@ -549,7 +549,7 @@ package modbus
 
 //@ func (b *Builder) ReadCoilsRTU() (res []BuilderRequest, err error)
 //@   requires b != nil
-//@   safety[C06,C10]
+//@   safety[C06]
 //@   modifies sortCalls
 //@   ensures[C06] !(forall i in 0..len(b.fields) :: fieldOK(b.fields[i])) ==> err != nil
 //@   ensures[C06] err != nil ==> len(res) == 0
@@ -557,7 +557,7 @@ package modbus
 
 //@ func (b *Builder) ReadDiscreteInputsTCP() (res []BuilderRequest, err error)
 //@   requires b != nil
-//@   safety[C06,C10]
+//@   safety[C06]
 //@   modifies sortCalls
 //@   ensures[C06] !(forall i in 0..len(b.fields) :: fieldOK(b.fields[i])) ==> err != nil
 //@   ensures[C06] err != nil ==> len(res) == 0
@@ -565,7 +565,7 @@ package modbus
 
 //@ func (b *Builder) ReadDiscreteInputsRTU() (res []BuilderRequest, err error)
 //@   requires b != nil
-//@   safety[C06,C10]
+//@   safety[C06]
 //@   modifies sortCalls
 //@   ensures[C06] !(forall i in 0..len(b.fields) :: fieldOK(b.fields[i])) ==> err != nil
 //@   ensures[C06] err != nil ==> len(res) == 0
@@ -573,7 +573,7 @@ package modbus
 
 //@ func (b *Builder) ReadHoldingRegistersTCP() (res []BuilderRequest, err error)
 //@   requires b != nil
-//@   safety[C06,C10]
+//@   safety[C06]
 //@   modifies sortCalls
 //@   ensures[C06] !(forall i in 0..len(b.fields) :: fieldOK(b.fields[i])) ==> err != nil
 //@   ensures[C06] err != nil ==> len(res) == 0
@@ -581,7 +581,7 @@ package modbus
 
 //@ func (b *Builder) ReadHoldingRegistersRTU() (res []BuilderRequest, err error)
 //@   requires b != nil
-//@   safety[C06,C10]
+//@   safety[C06]
 //@   modifies sortCalls
 //@   ensures[C06] !(forall i in 0..len(b.fields) :: fieldOK(b.fields[i])) ==> err != nil
 //@   ensures[C06] err != nil ==> len(res) == 0
@@ -589,7 +589,7 @@ package modbus
 
 //@ func (b *Builder) ReadInputRegistersTCP() (res []BuilderRequest, err error)
 //@   requires b != nil
-//@   safety[C06,C10]
+//@   safety[C06]
 //@   modifies sortCalls
 //@   ensures[C06] !(forall i in 0..len(b.fields) :: fieldOK(b.fields[i])) ==> err != nil
 //@   ensures[C06] err != nil ==> len(res) == 0
@@ -597,7 +597,7 @@ package modbus
 
 //@ func (b *Builder) ReadInputRegistersRTU() (res []BuilderRequest, err error)
 //@   requires b != nil
-//@   safety[C06,C10]
+//@   safety[C06]
 //@   modifies sortCalls
 //@   ensures[C06] !(forall i in 0..len(b.fields) :: fieldOK(b.fields[i])) ==> err != nil
 //@   ensures[C06] err != nil ==> len(res) == 0
